@@ -138,6 +138,13 @@ func c08Load() {
 }
 
 // family sizes
+func c08OpFaultWorlds(tier string) int {
+	if tier == "thorough" {
+		return 20_000
+	}
+	return 500
+}
+
 func c08Sizes(tier string) (truncP, truncT, flipP, flipT, cross, rderr, ill int) {
 	c08Load()
 	for _, p := range c08Cache.patches {
@@ -162,7 +169,7 @@ func c08Sizes(tier string) (truncP, truncT, flipP, flipT, cross, rderr, ill int)
 
 func (c08) NumCases(tier string) int {
 	a, b, c, d, e, f, g := c08Sizes(tier)
-	return a + b + c + d + e + f + g
+	return a + b + c + d + e + f + g + c08OpFaultWorlds(tier)
 }
 
 func (c08) Describe() CheckInfo {
@@ -170,7 +177,7 @@ func (c08) Describe() CheckInfo {
 		Level: "fault_enumeration",
 		Rule: "storage/stream faults on the two input channels, enumerated over the working tree's corpus (testdata txtar cases, examples/*.patch, testdata/patch/*.patch) plus the generated templates: " +
 			"(trunc-patch) EVERY prefix P[:k], k=0..|P|, of every patch — exhaustive in both tiers; (trunc-target) every prefix of every corpus input — exhaustive in both tiers; (flip-patch) single-byte substitution from a 32-symbol alphabet of structurally meaningful bytes at every offset (thorough; seeded sample in quick); (flip-target) seeded sample; " +
-			"(cross) every intact patch against every corpus input — exhaustive in both tiers; (read-error) an EIO injected into the patch stream after k bytes, which must yield exit != 0 and no modified file; (ill-typed) a fixed family of well-formed but ill-typed patches. Every variant runs through the real main() (patch via -p file or stdin with short reads) and through patch.Parse + File.Apply. " +
+			"(cross) every intact patch against every corpus input — exhaustive in both tiers; (read-error) an EIO injected into the patch stream after k bytes, which must yield exit != 0 and no modified file; (ill-typed) a fixed family of well-formed but ill-typed or oddly shaped patches and targets; (op-fault) for sampled corpus worlds every operation of an in-place run is failed once (file writes also persistently): no crash, no hang. Every variant runs through the real main() (patch via -p file or stdin with short reads) and through patch.Parse + File.Apply. " +
 			"A case must end within the step budget with exit 0, or exit != 0 and a diagnostic; never a panic, fatal error, no-progress or memory-limit death. distinct = distinct (family, patch or input, outcome class) tuples",
 		Assumptions: []string{
 			"termination is decided by logical steps (yield points executed), not seconds: the budget is 6e7 steps, four to five orders of magnitude above fault-free runs; loops in un-instrumented library code would be reported as inconclusive (exit 2), never as a violation",
@@ -179,7 +186,7 @@ func (c08) Describe() CheckInfo {
 		},
 		RealCode:       []string{"gopatch main(), loader, internal/parse (section splitter, meta parser), internal/pgo (augmenter), internal/engine, patch.Parse/File.Apply"},
 		Stubs:          []string{"package os (patch delivered through simulated files and a chunked simulated stdin)", "path/filepath walk", "io/ioutil"},
-		RequiredProbes: []string{"trunc-patch", "trunc-target", "flip-patch", "flip-target", "cross", "read-error-fired", "ill-typed", "patch-rejected", "patch-accepted", "stdin-short-reads", "api-parse", "api-apply"},
+		RequiredProbes: []string{"trunc-patch", "trunc-target", "flip-patch", "flip-target", "cross", "read-error-fired", "ill-typed", "op-fault", "patch-rejected", "patch-accepted", "stdin-short-reads", "api-parse", "api-apply"},
 	}
 }
 
@@ -282,6 +289,17 @@ func (c08) Gen(env *Env, seed uint64, tier string, i int) *Case {
 		c.Extra["errat"] = fmt.Sprint(r.Intn(len(p.Data) + 1))
 		c.Extra["what"] = fmt.Sprintf("%s with EIO after %s bytes", p.Name, c.Extra["errat"])
 		c.Extra["key"] = p.Name
+	case i >= tp+tt+fp+ft+cr+re+il:
+		// environment faults while an intact patch is applied in place: every
+		// operation of the run is failed once; gopatch must not crash or hang
+		c.Sub = "op-fault"
+		p := ps[r.Intn(len(ps))]
+		for len(p.Inputs) == 0 {
+			p = ps[r.Intn(len(ps))]
+		}
+		patch, inputs = p.Data, p.Inputs
+		c.Extra["what"] = "every operation failed once while applying " + p.Name
+		c.Extra["key"] = p.Name
 	default:
 		_ = il
 		c.Sub = "ill-typed"
@@ -317,10 +335,78 @@ func (c08) Gen(env *Env, seed uint64, tier string, i int) *Case {
 	if !c.Flags.Print && r.Chance(1, 3) {
 		c.Flags.Diff = true
 	}
+	if c.Sub == "op-fault" {
+		c.Flags = Flags{Verbose: r.Chance(1, 3), SkipImport: r.Chance(1, 4)}
+		if r.Chance(1, 4) {
+			c.Flags.Print = true
+		}
+		c.Extra["rng"] = fmt.Sprint(r.Uint64())
+	}
 	c.Targets = []string{"."}
 	c.Spec.Knobs.FileChunk = -r.Range(1, 512)
 	c.RebuildArgs()
 	return c
+}
+
+// c08OpFaults fails every operation of a fault-free pilot once (and, for file
+// writes, persistently) and requires that gopatch neither crashes nor hangs.
+func c08OpFaults(env *Env, c *Case, add func(string, string, string)) []Violation {
+	var vs []Violation
+	base := c.Spec.Clone()
+	base.Faults = nil
+	seen := map[string]bool{}
+	judge := func(faults []world.Fault) {
+		spec := base.Clone()
+		spec.Faults = faults
+		r := env.Run(spec)
+		if len(r.Fired) == 0 {
+			return
+		}
+		f := r.Fired[0]
+		env.Seen("op-fault|" + f.Name + "|" + f.Err + "|" + r.Outcome)
+		var v *Violation
+		switch r.Outcome {
+		case OutCrash:
+			v = &Violation{Oracle: "panic", Signature: "C08/panic/under-fault:" + NormalizePanic(r.Panic) + "@" + InnermostRepoFunc(r.Stack), Detail: fmt.Sprintf("gopatch panicked when %s %s failed with %s: %s\n%s [%s; args %v]", f.Name, f.Path, f.Err, r.Panic, clip(r.Stack, 1500), c.Extra["what"], c.Spec.Args)}
+		case OutNoProgress:
+			v = &Violation{Oracle: "no-progress", Signature: "C08/no-progress/under-fault:" + r.Spin, Detail: fmt.Sprintf("gopatch made no progress after %s %s failed with %s (spinning in %s) [%s; args %v]", f.Name, f.Path, f.Err, r.Spin, c.Extra["what"], c.Spec.Args)}
+		}
+		if v != nil && !seen[v.Signature] {
+			seen[v.Signature] = true
+			cc := c.Clone()
+			cc.Spec.Faults = faults
+			v.Case = cc
+			vs = append(vs, *v)
+		}
+	}
+	if len(c.Spec.Faults) > 0 {
+		judge(c.Spec.Faults)
+		return vs
+	}
+	pilot := env.Run(base)
+	if pilot.Outcome != OutExit {
+		return nil // the intact-patch families report this
+	}
+	var seedv uint64
+	fmt.Sscan(c.Extra["rng"], &seedv)
+	r := world.NewPRNG(seedv)
+	wrote := wroteHandles(pilot.Log)
+	for k, o := range pilot.Log {
+		if o.Name == "exit" {
+			continue
+		}
+		ens := c16Errnos[opClass(o, wrote)]
+		f := world.Fault{AtOp: k, Kind: "fail", Errno: ens[r.Intn(len(ens))]}
+		if (o.Name == "write" || o.Name == "read" || o.Name == "stdout" || o.Name == "stdin") && o.N > 0 {
+			f.Bytes = r.Intn(o.N + 1)
+		}
+		judge([]world.Fault{f})
+		if o.Name == "write" {
+			f.Sticky = true
+			judge([]world.Fault{f})
+		}
+	}
+	return vs
 }
 
 func c08PatchFor(in CorpusFile) c08Patch {
@@ -342,6 +428,9 @@ func (c08) Eval(env *Env, c *Case) []Violation {
 	}
 	env.Probe(c.Sub)
 	spec := c.Spec
+	if c.Sub == "op-fault" {
+		return c08OpFaults(env, c, add)
+	}
 	if c.Sub == "read-error" {
 		// find the read op of the patch in a pilot, then inject the error there
 		pilot := RunCLI(env.Prog, c.Spec)
